@@ -3,7 +3,6 @@ package rules
 import (
 	"go/token"
 	"go/types"
-	"math"
 
 	"golang.org/x/tools/go/ssa"
 
@@ -42,76 +41,14 @@ func (c *Ctx) literalBounds(rule string) {
 				}
 				n++
 				key := c.name(f) + "|make-from-number"
-				upper, lower := false, false
-				for _, b2 := range f.Blocks {
-					iff := engine.IfOf(b2)
-					if iff == nil {
-						continue
-					}
-					cmp, ok := iff.Cond.(*ssa.BinOp)
-					if !ok {
-						continue
-					}
-					var k *ssa.Const
-					var other ssa.Value
-					swapped := false
-					if kc, ok := cmp.Y.(*ssa.Const); ok {
-						k, other = kc, cmp.X
-					} else if kc, ok := cmp.X.(*ssa.Const); ok {
-						k, other, swapped = kc, cmp.Y, true
-					}
-					if k == nil || other != num && !sameValueThroughConv(other, num) {
-						continue
-					}
-					lim, exact := constantInt64(k)
-					if !exact {
-						continue
-					}
-					op := cmp.Op
-					if swapped {
-						switch op {
-						case token.LSS:
-							op = token.GTR
-						case token.LEQ:
-							op = token.GEQ
-						case token.GTR:
-							op = token.LSS
-						case token.GEQ:
-							op = token.LEQ
-						}
-					}
-					// error edge
-					errIx := 0
-					retErr := func(ix int) bool {
-						t := b2.Succs[ix]
-						if len(t.Instrs) == 0 {
-							return false
-						}
-						ret, ok := t.Instrs[len(t.Instrs)-1].(*ssa.Return)
-						if !ok {
-							return false
-						}
-						lr := engine.LastResult(ret)
-						return lr != nil && !engine.IsNilConst(lr)
-					}
-					if !retErr(errIx) || !engine.EdgeDominates(b2, 1, ms.Block()) {
-						continue
-					}
-					switch op {
-					case token.GTR, token.GEQ:
-						if lim <= 64<<20 && lim > 0 && lim < math.MaxInt32 {
-							upper = true
-						}
-					case token.LSS:
-						if lim >= 1 {
-							lower = true
-						}
-					case token.LEQ:
-						if lim >= 0 {
-							lower = true
-						}
-					}
+				// bounds proved from the conditions that dominate the allocation - in this function or in a
+				// validating helper whose nil-error edge dominates it (linear-inequality entailment)
+				sizeVal := num
+				if sizeVal == nil {
+					sizeVal = ms.Len
 				}
+				upper := engine.EntailedAt(f, ms.Block(), sizeVal, 64<<20, true, P.IsOwn)
+				lower := engine.EntailedAt(f, ms.Block(), sizeVal, 1, false, P.IsOwn)
 				R.Check(upper, rule, key+"|upper-bound", P.Pos(ms.Pos()), "allocation size from the client is capped by a constant", "a buffer whose size is a number sent by the client is allocated without a dominating upper bound: one command can make the server allocate gigabytes")
 				R.Check(lower, rule, key+"|lower-bound", P.Pos(ms.Pos()), "zero-length literals are rejected before the buffer is filled", "a literal of size 0 reaches make([]byte, 0) and Scanner.ConsumeBytes, which writes dst[0] unconditionally: index out of range panic in the reader goroutine kills the process")
 			}
@@ -218,7 +155,32 @@ func (c *Ctx) readerErrorPath(rule string) {
 	errFld := c.fieldOf("internal/session", "Session", "errorCount")
 	var badCalls []*ssa.Call
 	incr, reset, limit := false, false, false
-	for _, b := range sv.Blocks {
+	// serve and the Session methods it calls (two frames): the error handling may live in a helper
+	scope := []*ssa.Function{sv}
+	seenF := map[*ssa.Function]bool{sv: true}
+	for d, frontier := 0, []*ssa.Function{sv}; d < 2; d++ {
+		var next []*ssa.Function
+		for _, g := range frontier {
+			for _, cs := range engine.Calls(g) {
+				sc := cs.Common().StaticCallee()
+				if sc == nil || seenF[sc] || len(sc.Blocks) == 0 {
+					continue
+				}
+				if rn := engine.RecvNamed(sc); rn == nil || rn.Obj().Name() != "Session" {
+					continue
+				}
+				seenF[sc] = true
+				scope = append(scope, sc)
+				next = append(next, sc)
+			}
+		}
+		frontier = next
+	}
+	var allBlocks []*ssa.BasicBlock
+	for _, g := range scope {
+		allBlocks = append(allBlocks, g.Blocks...)
+	}
+	for _, b := range allBlocks {
 		for _, in := range b.Instrs {
 			switch t := in.(type) {
 			case *ssa.Call:
@@ -235,7 +197,7 @@ func (c *Ctx) readerErrorPath(rule string) {
 					}
 				}
 			case *ssa.If:
-				if cmp, ok := t.Cond.(*ssa.BinOp); ok && (cmp.Op == token.GEQ || cmp.Op == token.GTR) {
+				if cmp, ok := t.Cond.(*ssa.BinOp); ok && (cmp.Op == token.GEQ || cmp.Op == token.GTR || cmp.Op == token.LSS || cmp.Op == token.LEQ) {
 					if _, isK := cmp.Y.(*ssa.Const); isK {
 						// compared value derives from errorCount
 						if engine.AnyBackward(cmp.X, engine.FlowOpts{}, func(x ssa.Value) bool {
@@ -249,12 +211,14 @@ func (c *Ctx) readerErrorPath(rule string) {
 							}
 							return false
 						}) {
-							// true edge returns
-							ts := t.Block().Succs[0]
-							for blk := range engine.BlocksReachableFrom(ts) {
-								if len(blk.Instrs) > 0 {
-									if _, ok := blk.Instrs[len(blk.Instrs)-1].(*ssa.Return); ok && engine.EdgeDominates(t.Block(), 0, blk) {
-										limit = true
+							// one edge of the comparison leads straight to a return (the session / the helper ends there)
+							for ei := 0; ei < 2; ei++ {
+								ts := t.Block().Succs[ei]
+								for blk := range engine.BlocksReachableFrom(ts) {
+									if len(blk.Instrs) > 0 {
+										if _, ok := blk.Instrs[len(blk.Instrs)-1].(*ssa.Return); ok && engine.EdgeDominates(t.Block(), ei, blk) {
+											limit = true
+										}
 									}
 								}
 							}
